@@ -17,12 +17,13 @@ CONFIG = {
              'JSON equality, symmetric, to_hashable(a)==to_hashable(b) <=> JSON-equal, hash agrees; all triples '
              'of a subset for transitivity; output-guided second preimages: the observed to_hashable form of every '
              'subtree is re-read as a list / flat dict / scalar with and without its leading tag and substituted '
-             '(collisions through the encoding\'s own tags are constructed, not guessed); (2) random values to '
+             '(collisions through the encoding\'s own tags are constructed, not guessed); key-order layer: all dicts with 2-3 keys from '
+             '{a, A, NFC/NFD e-acute, 1, 01, empty, space} in every insertion order (same key set => equal, whatever the order); (2) random values to '
              'depth 6 with near-miss mutants and mined preimages. evaluations = '
              'law evaluations; distinct_nontrivial = distinct pairs that are JSON-equal but not identical, or '
              'Python-== but not JSON-equal (the collision pairs)'),
     'exhaustive_layer': 'all values with <=3 nodes over the 13 atoms: every value (sanitize laws) and every ordered pair (equality/hash laws)',
-    'gates': ['pairs', 'sanitize_checked', 'triples', 'typeerror_cases', 'mined_pairs'],
+    'gates': ['pairs', 'sanitize_checked', 'triples', 'typeerror_cases', 'mined_pairs', 'key_order_pairs'],
 }
 
 
@@ -241,6 +242,28 @@ def run_shard(sh):
     for i in range(sh.idx, n, sh.n):
         if hashables[i] is not None:
             mined_pairs(vals[i], canons[i], hashables[i])
+    # ---------------- (1e) key-order layer: dicts over keys that tie under the usual normalisations
+    #                  (case, NFC/NFD, padding, numeric spelling) in EVERY insertion order: the same key
+    #                  set is JSON-equal whatever the order (equal hashable forms), different key sets never
+    import itertools
+    import unicodedata
+    KEYPOOL = ['a', 'A', unicodedata.normalize('NFC', 'é'), unicodedata.normalize('NFD', 'é'), '1', '01', '', ' ']
+    kvals = []
+    for ksz in (2, 3):
+        for ks in itertools.combinations(range(len(KEYPOOL)), ksz):
+            for perm in itertools.permutations(ks):
+                kvals.append((ks, {KEYPOOL[i]: i for i in perm}))
+    for i in range(sh.idx, len(kvals), sh.n):
+        ksa, a = kvals[i]
+        ha = JsonUtil.to_hashable(a)
+        ca = canon(a)
+        for ksb, b in kvals:
+            if ksa == ksb or len(ksa) == len(ksb) == 2:
+                check_pair(sh, JsonUtil, a, b, ca, canon(b), ha, JsonUtil.to_hashable(b))
+                sh.count('key_order_pairs')
+                # one level down and as a list element, too
+                check_pair(sh, JsonUtil, [a], [b], canon([a]), canon([b]), JsonUtil.to_hashable([a]),
+                           JsonUtil.to_hashable([b]))
     # ---------------- (2) random deeper values + near misses
     from ..values import near_misses
     while sh.time_left() > 0:
